@@ -16,7 +16,7 @@
 EXTENDS Integers, Sequences, FiniteSets, TLC, Json, RenderPoolOps
 
 CONSTANTS NB,         \* buffer object ids are 1..NB
-          CheckWriter \* TRUE: the harness gives writer id = render id, so acquire must report it
+          CheckWriter \* TRUE: the harness gives writer id = render id, so acquire must report it (0 = a writer without id)
 
 Trace == ndJsonDeserialize("trace.ndjson")
 
@@ -57,7 +57,7 @@ Step ==
                  /\ viol' = AddIf(AddIf(AddIf(AddIf(viol,
                                 ~GetLegal(hr, r, b), V(n, "ExclusiveBuffer.AcquireWhileHeld")),
                                 e.dirty, V(n, "NoCarryOver.DirtyAcquire")),
-                                CheckWriter /\ e.w # r, V(n, "NoCarryOver.WrongWriter")),
+                                CheckWriter /\ e.w # 0 /\ e.w # r, V(n, "NoCarryOver.WrongWriter")),
                                 Holds(hr, r), V(n, "OneOwner.SecondAcquire"))
                  /\ UNCHANGED <<hb, pb, active>>
             [] e.ev = "existing" ->                                  \* GetBuffer: the writer already is a *Buffer
